@@ -3,6 +3,10 @@ import json, os, sys
 HERE = os.path.dirname(os.path.dirname(os.path.abspath(__file__)))
 
 CHECKS = {
+    "C06": ("model_checking", "3 C06",
+            "BFS over container histories (create/delete datasets and groups, attach/detach metadata of a 3-level schema family + core.file, copy with/without metadata, move, reopen, IH5 patch boundary) on real MetadorContainers over h5py.File and IH5Record, from the empty container and from populated start states; after every op, successful or failed: independent scan of the raw tree against the documented layout (link<->object bijection, UUID uniqueness, schema/package records exactly for used schemas, no empty or orphan bookkeeping), attached set == reference model, live in-memory index == index rebuilt by a fresh MetadorContainer.",
+            "Documented container layout is what the scan reads; harness schema family registered like an installed package; bounded depth/alphabet; private index fields compared only between two objects of the same build (semantic normalisation, public answers as well).",
+            "explicit-state BFS of the real implementation with invariant + reference-model oracle"),
     "C11": ("fault_enumeration", "3 C11",
             "Patching histories (setup, boundary, fill, commit; IH5Record and IH5MFRecord) run in a writer process under strace; the syscall log is parsed into the ordered list of file mutations (self-validated by byte-identical replay). Every prefix of that list and every torn length of every data-carrying write is materialised as a crash image and judged: committed files byte-identical, committed set alone opens with the state at its commit, complete set refuses / is recognisably uncommitted / shows exactly the last or the new committed state.",
             "Process death at syscall granularity (page-cache order); no block reordering (power loss) - outside the property's wording; quick tier tears HDF5 payload writes at a fixed stride, user-block and manifest writes at every byte.",
